@@ -28,7 +28,8 @@ func runCase(c chainsim.Case, rep chainsim.Reporter, scratch string) {
 	cfg := chainsim.HistoryConfig{Seed: c.Seed, Profile: c.Profile, Blocks: c.Blocks, Paths: true,
 		Replicas: []chainsim.ReplicaConfig{{Name: "twin", Backend: "pathbadger"}}}
 	km := &chainsim.KeyManagerMonitor{Rep: rep, Sig: "c14/keymanager"}
-	h, err := chainsim.NewHistory(cfg, em, cm, km)
+	vm := &chainsim.VRFMonitor{Rep: rep, Sig: "c14/vrf", Recompute: true}
+	h, err := chainsim.NewHistory(cfg, em, cm, km, vm)
 	if err != nil {
 		rep.Inconclusive("setup failed: " + err.Error())
 		return
@@ -44,6 +45,8 @@ func runCase(c chainsim.Case, rep chainsim.Reporter, scratch string) {
 	for k, n := range em.Excluded {
 		rep.Count("nodes_excluded."+k, int64(n))
 	}
+	rep.Count("validator_elections_restricted_to_nodes_with_vrf_proof", int64(em.VRFFiltered))
+	rep.Count("validator_elections_under_vrf_falling_back_to_entropy", int64(em.VRFFallback))
 	if h.Sc.Runtime != nil {
 		rep.Count("histories_with_runtime", 1)
 		cm.Report(rep)
@@ -100,7 +103,9 @@ func main() {
 		Cases: func(r *evid.Run) []chainsim.Case {
 			cs := chainsim.StdCases(r.Seed, r.Pick(256, 3200), r.Pick(60, 100), []string{"election", "runtime", "hostile", "registry", "election", "runtime", "runtime", "election"})
 			// Key manager committees (the node list of the key manager status is rebuilt at every epoch transition).
-			return chainsim.WithExtraCases(cs, r.Seed, r.Pick(8, 100), "keymanager")
+			cs = chainsim.WithExtraCases(cs, r.Seed, r.Pick(8, 100), "keymanager")
+			// VRF beacon backend (validators ordered and committees elected by VRF proofs, weak alphas).
+			return chainsim.WithExtraCases(cs, r.Seed, r.Pick(8, 200), "vrf")
 		},
 		RunCase: runCase,
 		Floor:   10,
